@@ -1,7 +1,7 @@
 (* Eval/MarksNI_Funcs.v — C06: the contract on functions and its proof for the harness table. *)
 From Coq Require Import QArith.
 From HclV Require Import Base.Prelude Cty.Values Cty.Convert Cty.Ops Eval.Impl Eval.Funcs
-     Eval.MarksNI Eval.MarksNI_Ops Eval.MarksNI_Index.
+     Eval.MarksNI Eval.MarksNI_Ops Eval.MarksNI_Index Eval.MarksNI_Conv.
 Open Scope Z_scope.
 
 (* THE CONTRACT: a function, called through function.Function.Call (fn_call: null / unknown /
@@ -15,17 +15,19 @@ Definition fn_ni (m : Z) (f : fn) : Prop :=
   forall args1 args2 v1 v2, Forall2 (leq m) args1 args2 -> args_fit f (length args1) ->
     fn_call f args1 = CallOk v1 -> fn_call f args2 = CallOk v2 -> leq m v1 v2.
 
-(* Parameter types are primitive or dynamic.  (A restriction of the proof, not of the model:
-   the conversion lemma is proved for primitive and dynamic target types only.) *)
-Definition params_pd (f : fn) : bool :=
-  forallb (fun p => pd_ty (p_ty p)) (f_params f) &&
-  match f_varparam f with Some p => pd_ty (p_ty p) | None => true end.
+(* No parameter type contains an object type.  (A restriction of the PROOF, not of the model:
+   conversion to an object type looks attributes up by name, and the proof that this respects
+   low-equivalence when the two argument types differ under a mark would need the invariant
+   "attribute names are unique", which is not threaded through the evaluator.) *)
+Definition params_noobj (f : fn) : bool :=
+  forallb (fun p => noobj (p_ty p)) (f_params f) &&
+  match f_varparam f with Some p => noobj (p_ty p) | None => true end.
 
 (* results of successful calls are well-formed (no mark directly under a mark) *)
 Definition fn_wf (f : fn) : Prop :=
   forall args v, Forall wf args -> fn_call f args = CallOk v -> wf v.
 
-Definition fn_ok (m : Z) (f : fn) : Prop := fn_ni m f /\ params_pd f = true /\ fn_wf f.
+Definition fn_ok (m : Z) (f : fn) : Prop := fn_ni m f /\ params_noobj f = true /\ fn_wf f.
 
 (* every function of every table of the context satisfies the contract *)
 Definition funcs_ni (m : Z) (c : ctx) : Prop :=
@@ -64,9 +66,9 @@ Proof.
   - rewrite E in H2. apply negb_true_iff in H2. exact H2.
 Qed.
 
-Lemma param_for_pd f i p : params_pd f = true -> param_for f i = Some p -> pd_ty (p_ty p) = true.
+Lemma param_for_noobj f i p : params_noobj f = true -> param_for f i = Some p -> noobj (p_ty p) = true.
 Proof.
-  unfold params_pd, param_for. intros H E. apply andb_true_iff in H as [H1 H2].
+  unfold params_noobj, param_for. intros H E. apply andb_true_iff in H as [H1 H2].
   destruct (nth_opt (f_params f) i) eqn:N.
   - injection E as <-. apply nth_opt_In in N. rewrite forallb_forall in H1. apply H1 in N. exact N.
   - rewrite E in H2. exact H2.
@@ -186,26 +188,37 @@ Qed.
 
 (* ---- well-formedness of function results ------------------------------------------------------ *)
 
-Lemma wf_unmark_deep v : wf (unmark_deep v) /\ is_mark (unmark_deep v) = false.
+Lemma type_of_unmark_deep v : type_of (unmark_deep v) = type_of v.
 Proof.
-  induction v using val_ind'; cbn [unmark_deep]; try (split; reflexivity); try exact IHv.
-  - split; [|reflexivity]. unfold wf. cbn [wfb]. induction H as [|x r [Hx _] _ IH]; cbn [map forallb]; [reflexivity|].
-    apply andb_true_iff; split; assumption.
-  - split; [|reflexivity]. unfold wf. cbn [wfb]. induction H as [|x r [Hx _] _ IH]; cbn [map forallb]; [reflexivity|].
-    apply andb_true_iff; split; assumption.
-  - split; [|reflexivity]. unfold wf. cbn [wfb]. induction H as [|x r [Hx _] _ IH]; cbn [map forallb snd]; [reflexivity|].
-    apply andb_true_iff; split; assumption.
-  - split; [|reflexivity]. unfold wf. cbn [wfb]. induction H as [|x r [Hx _] _ IH]; cbn [map forallb]; [reflexivity|].
-    apply andb_true_iff; split; assumption.
-  - split; [|reflexivity]. unfold wf. cbn [wfb]. induction H as [|x r [Hx _] _ IH]; cbn [map forallb snd]; [reflexivity|].
-    apply andb_true_iff; split; assumption.
+  induction v using val_ind'; cbn [unmark_deep type_of]; try reflexivity; try exact IHv.
+  - f_equal. induction H as [|x r Hx _ IH]; cbn [map]; [reflexivity|]. rewrite Hx, IH. reflexivity.
+  - f_equal. induction H as [|x r Hx _ IH]; cbn [map fst snd]; [reflexivity|]. rewrite Hx, IH. reflexivity.
+Qed.
+
+Lemma wf_unmark_deep v : wf v -> wf (unmark_deep v) /\ is_mark (unmark_deep v) = false.
+Proof.
+  unfold wf. induction v using val_ind'; cbn [unmark_deep wfb]; intro W; try (split; reflexivity).
+  - split; [|reflexivity]. induction H as [|x r Hx _ IH]; cbn [map forallb] in *; [reflexivity|].
+    apply andb_true_iff in W as [A B]. apply andb_true_iff in A as [A1 A2].
+    rewrite type_of_unmark_deep, A1, (proj1 (Hx A2)), (IH B). reflexivity.
+  - split; [|reflexivity]. induction H as [|x r Hx _ IH]; cbn [map forallb] in *; [reflexivity|].
+    apply andb_true_iff in W as [A B]. apply andb_true_iff in A as [A1 A2].
+    rewrite type_of_unmark_deep, A1, (proj1 (Hx A2)), (IH B). reflexivity.
+  - split; [|reflexivity]. induction H as [|x r Hx _ IH]; cbn [map forallb snd] in *; [reflexivity|].
+    apply andb_true_iff in W as [A B]. apply andb_true_iff in A as [A1 A2].
+    rewrite type_of_unmark_deep, A1, (proj1 (Hx A2)), (IH B). reflexivity.
+  - split; [|reflexivity]. induction H as [|x r Hx _ IH]; cbn [map forallb] in *; [reflexivity|].
+    apply andb_true_iff in W as [A B]. rewrite (proj1 (Hx A)), (IH B). reflexivity.
+  - split; [|reflexivity]. induction H as [|x r Hx _ IH]; cbn [map forallb snd] in *; [reflexivity|].
+    apply andb_true_iff in W as [A B]. rewrite (proj1 (Hx A)), (IH B). reflexivity.
+  - apply andb_true_iff in W as [_ W]. apply andb_true_iff in W as [_ W]. apply IHv, W.
 Qed.
 
 Lemma prep_wf f : forall args i, Forall wf args -> Forall wf (map fst (prep_of f i args)).
 Proof.
   induction args as [|a r IH]; intros i W; unfold prep_of; cbn [length seq combine map]; [constructor|].
   inversion W as [|? ? Wa Wr]; subst. constructor; [|apply IH; exact Wr]. cbn [fst snd].
-  destruct (param_for f i) as [p|]; [destruct (p_marked p)|]; cbn [fst]; try exact Wa. apply wf_unmark_deep.
+  destruct (param_for f i) as [p|]; [destruct (p_marked p)|]; cbn [fst]; try exact Wa. apply wf_unmark_deep, Wa.
 Qed.
 
 Lemma fn_wf_of_impl f :
